@@ -412,7 +412,9 @@ pub fn finish_counters(out: &mut Outcome, run: &Run) {
 // C04
 // =============================================================================================
 
-pub struct FireCheck;
+pub struct FireCheck {
+    pub id: &'static str,
+}
 
 struct PatGen<'a> {
     rng: &'a mut Rng,
@@ -541,10 +543,10 @@ fn small_term(rng: &mut Rng, slots: &[S], depth: usize) -> Tm {
 
 impl Check for FireCheck {
     fn id(&self) -> &'static str {
-        "C04"
+        self.id
     }
     fn gen(&self, seed: u64, _tier: Tier) -> Run {
-        let mut run = Run::new("C04", seed);
+        let mut run = Run::new(self.id, seed);
         let mut rng = Rng::stream(seed, "workload");
         let mut g = PatGen { rng: &mut rng, nvars: 0, var_scope: Vec::new(), next_bound: BOUND_BASE };
         let depth = 1 + g.rng.below(3);
@@ -631,6 +633,9 @@ impl Check for FireCheck {
         run
     }
     fn rule(&self) -> &'static str {
+        if self.id == "C07R" {
+            return "the C04 workload in the explanations build (a seeded rule over LS, a planted instance, literal or only up to equality through a plain union, or with a symmetric child); after apply_rewrites the equality of the left and the right instance is explained and the proof DAG re-checked by M_proof; explicit leaves must be instances of the rule (justification = rule name) or of an asserted union; non-trivial = the proof contains a leaf justified by the rule; distinct = distinct canonical key";
+        }
         "a seeded left pattern over LS (depth 1-3, repeated variables only under identical binders, each bound slot bound once and not used free), a right pattern over its variables, a substitution of small terms, planted literally / only up to equality through a balanced union of a variable's term with another term over the same slots / with a symmetric child class, plus distractor terms; e-graphs with a redundant slot are skipped (counted); apply_rewrites once; oracle: lookup_rec_expr of the right instance succeeds and is eq to the left instance; non-trivial = the pattern has at least one variable and one operator and the instance was present before the rewrite; distinct = distinct canonical key"
     }
     fn fault_kinds(&self) -> &'static [&'static str] {
@@ -752,6 +757,8 @@ impl Check for FireCheck {
         let cr: Pattern<LS> = r.to_pattern::<LS>(&mut s.nm);
         let (cl2, cr2) = (cl.clone(), cr.clone());
         let mut rules: Vec<Rewrite<LS, ()>> = Vec::new();
+        #[allow(unused_mut)]
+        let mut rule_pats: Vec<(Pat, Pat, String)> = vec![(l.clone(), r.clone(), "rule".to_string())];
         // optional auxiliary rule, applied in the same call BEFORE the rule under test: it rewrites
         // the planted variable's term to another term whose class is bigger, so that the class the
         // main rule's match refers to is merged away before the main rule's applier runs
@@ -774,6 +781,7 @@ impl Check for FireCheck {
                     match catch_op(|| Rewrite::<LS, ()>::new("aux", &al.to_string(), &ar.to_string())) {
                         Ok(rw) => {
                             rules.push(rw);
+                            rule_pats.push((Pat::from_tm(&tau), Pat::from_tm(&tau2), "aux".to_string()));
                             out.bump("aux_rule_used");
                         }
                         Err(_) => {
@@ -839,9 +847,32 @@ impl Check for FireCheck {
             Ok(None) => out.bump("instances_fired"),
         }
         out.states.push(state_hash(&s.eg));
+        #[cfg(feature = "explanations")]
+        if self.id == "C07R" && out.violations.is_empty() && out.discarded.is_none() {
+            let asserted: Vec<(Tm, Tm, String)> = s.eqs.iter().map(|(a, b)| (a.clone(), b.clone(), String::new())).collect();
+            let rules = rule_pats.clone();
+            let re1 = to_re::<LS>(&li, &mut s.nm);
+            let re2 = to_re::<LS>(&ri, &mut s.nm);
+            match catch_op(|| s.eg.explain_equivalence(re1, re2)) {
+                Err(p) => {
+                    out.violations.push(panic_violation("C07", "explain_returns", &p, 0));
+                }
+                Ok(proof) => {
+                    let res = catch_op(|| super::explain::check_proof(&s.eg, &mut s.nm, &proof, &asserted, &rules, &(li.clone(), ri.clone())));
+                    match res {
+                        Err(p) => out.violations.push(panic_violation("C07", "proof_readable", &p, 0)),
+                        Ok(Err((clause, m))) => out.violations.push(viol("C07", &clause, format!("rule {l} => {r}, explaining {li} = {ri}: {m}"), 0)),
+                        Ok(Ok((nodes, rule_leaves))) => {
+                            out.count("proof_nodes_checked", nodes);
+                            out.count("rule_leaves_checked", rule_leaves);
+                        }
+                    }
+                }
+            }
+        }
         finish_counters(&mut out, run);
         out.log_hash = s.log_hash;
-        out.nontrivial = out.discarded.is_none() && !vars.is_empty();
+        out.nontrivial = out.discarded.is_none() && !vars.is_empty() && (self.id != "C07R" || out.counters.get("rule_leaves_checked").copied().unwrap_or(0) > 0);
         out
     }
 }
